@@ -10,8 +10,10 @@ import (
 )
 
 // verifRateRef is an independent reading of the documented -rate grammar:
-//   infinity | N | N/D   with D a Go duration or a bare unit (= one of it);
-//   N = 0 means unlimited whatever D is.
+//
+//	infinity | N | N/D   with D a Go duration or a bare unit (= one of it);
+//	N = 0 means unlimited whatever D is.
+//
 // Number and duration syntax themselves are the library's (strconv, time).
 func verifRateRef(v string) (freq int, per time.Duration, unlimited, ok bool) {
 	if v == "infinity" {
